@@ -24,6 +24,8 @@ def declare(c):
                      'cannot stop early)', floor=1)
     c.rule('C19.R3', 'parameterItems yields (upper-cased letter, float(value) | None) in source order and continues at the '
                      'end of each match; parameterDict is last-wins', floor=4)
+    c.rule('C19.R7', 'the shared parser reads the command it is handed from its beginning, whatever it parsed before (the same '
+                     'command twice in a row yields the same words twice)', floor=2)
     c.rule('C19.R5', 'a repeated word: the handlers act on the last value given for the letter', floor=8)
     c.rule('C19.R6', 'the trailing (\'\', text) item of parameterItems (value-less words, stray text) never changes what a '
                        'handler does', floor=100)
@@ -327,6 +329,8 @@ def run(ctx, tier):
     language_rules(ctx)
     I = parser_interp(ctx.model, unroll=3 if tier == 'thorough' else 2)
     items_rules(ctx, I)
+    from .rules_c18 import rewind_rule
+    rewind_rule(ctx, I, 'C19.R7')
     run_path_rules(ctx, __name__, 'path_rules', ['G0', 'G1', 'G2', 'G3', 'G92', 'M206', 'G28', 'G10'], unroll=1)
     dup_tasks = [('G0', {'param_dups': [L]}) for L in 'XYZEF'] + [('G92', {'param_dups': [L]}) for L in 'XYZE'] + \
         [('M206', {'param_dups': [L]}) for L in 'XYZ']
